@@ -75,6 +75,7 @@ fixed("FX-C16-05", "C16", "fcf0257", "Unmarshal(\"01\", &v) / (\"1-\", &v) with 
 fixed("FX-C03-01", "C03", "1540e8d", "Marshal(map[*int]int{&three: 1}) = {3:1} and a nil *string key gave {null:1}: pointer key types were encoded through their element's value code (reported by the seeded-change agent for C03, wave 6)")
 fixed("FX-C01-02", "C01", "20f8860", "a type with MarshalJSON on the value and MarshalText on the pointer was encoded through MarshalText as a by-value member of an addressable struct and as a pointer member ({\"J\":\"text\"} instead of {\"J\":4}) (found by C01's both-marshalers family added for seeded change C01f)")
 fixed("FX-C06-09", "C06", "5f8250a", "Path.Get(src, &dst) panicked in reflect.Value.Set for dst of type **int, a named type, an interface with methods, func, chan, [2]int from []int, structs with other/unexported/promoted members, and for a nil or non-pointer dst (found when the statement-coverage aid showed internal/decoder/assign.go was never executed and C06's Path.Get entry got destinations of every kind)")
+fixed("FX-C06-10", "C06", "08a78cb", "CreatePath(\"$[-1]\") then Path.Get on a slice panicked (reflect: slice index out of range) (reported by the seeded-change agent for C06, wave 7; C06's compiled paths now include negative and huge indexes)")
 fixed("FX-C07-06", "C07", "92cf9c1", "newArrayDecoder read 8 bytes from a fresh zero value of the element type: out of bounds for [N]uint8 and other elements smaller than a pointer (-asan: use-after-poison in decoder.newArrayDecoder on the first decode into such an array; found by the thorough tier's asan variant)")
 fixed("FX-C16-02", "C16", "722e84b", "\"16.0\", \"1e2\", \"0.5\" into an integer stored the digit prefix: NewDecoder(\"16.0\").Decode(&uint8) = nil, 16; {\"1.5\":true} into map[int]bool stored key 1; {\"v\":\"1e2\"} with ,string stored 1; Unmarshal reported a syntax error at the leftover (was KF-C16-03 fraction/exponent classes, KF-C09-01, KF-C02-04, KF-C02-04b)")
 fixed("FX-C16-03", "C16", "26b55f9", "Unmarshal(\"-\", &int64) = nil, value 0 (was KF-C16-01)")
